@@ -36,6 +36,14 @@ static inline bool size_mul_overflow(size_t a, size_t b, size_t *result) {
 }
 
 /* Internal comparison function for qsort */
+/* Read one tagged varint without touching bytes at or beyond 'end'.
+ * Returns 0 if the varint does not fit in the remaining input. */
+static varintWidth dictGetBounded_(const uint8_t *ptr, const uint8_t *end,
+                                   uint64_t *value) {
+    const size_t remaining = (size_t)(end - ptr);
+    return varintTaggedGet(ptr, remaining > 9 ? 9 : (int32_t)remaining, value);
+}
+
 static int compareUint64(const void *a, const void *b) {
     uint64_t va = *(const uint64_t *)a;
     uint64_t vb = *(const uint64_t *)b;
@@ -234,7 +242,7 @@ uint64_t *varintDictDecode(const uint8_t *buffer, size_t bufferLen,
 
     /* Read dictionary size */
     uint64_t dictSize64;
-    varintWidth w = varintTaggedGet64(ptr, &dictSize64);
+    varintWidth w = dictGetBounded_(ptr, end, &dictSize64);
     if (w == 0 || ptr + w > end) {
         return NULL;
     }
@@ -259,7 +267,7 @@ uint64_t *varintDictDecode(const uint8_t *buffer, size_t bufferLen,
     }
 
     for (uint32_t i = 0; i < dictSize; i++) {
-        w = varintTaggedGet64(ptr, &dictValues[i]);
+        w = dictGetBounded_(ptr, end, &dictValues[i]);
         if (w == 0 || ptr + w > end) {
             free(dictValues);
             return NULL;
@@ -269,7 +277,7 @@ uint64_t *varintDictDecode(const uint8_t *buffer, size_t bufferLen,
 
     /* Read count */
     uint64_t count64;
-    w = varintTaggedGet64(ptr, &count64);
+    w = dictGetBounded_(ptr, end, &count64);
     if (w == 0 || ptr + w > end) {
         free(dictValues);
         return NULL;
@@ -328,7 +336,7 @@ size_t varintDictDecodeInto(const uint8_t *buffer, size_t bufferLen,
 
     /* Read dictionary size */
     uint64_t dictSize64;
-    varintWidth w = varintTaggedGet64(ptr, &dictSize64);
+    varintWidth w = dictGetBounded_(ptr, end, &dictSize64);
     if (w == 0 || ptr + w > end) {
         return 0;
     }
@@ -353,7 +361,7 @@ size_t varintDictDecodeInto(const uint8_t *buffer, size_t bufferLen,
     }
 
     for (uint32_t i = 0; i < dictSize; i++) {
-        w = varintTaggedGet64(ptr, &dictValues[i]);
+        w = dictGetBounded_(ptr, end, &dictValues[i]);
         if (w == 0 || ptr + w > end) {
             free(dictValues);
             return 0;
@@ -363,7 +371,7 @@ size_t varintDictDecodeInto(const uint8_t *buffer, size_t bufferLen,
 
     /* Read count */
     uint64_t count64;
-    w = varintTaggedGet64(ptr, &count64);
+    w = dictGetBounded_(ptr, end, &count64);
     if (w == 0 || ptr + w > end) {
         free(dictValues);
         return 0;
